@@ -375,7 +375,13 @@ def table(I):
     return _Table(T, I)
 
 
-_hexstr = z3.Function('hexstr', z3.IntSort(), z3.StringSort())
+_hexmag = z3.Function('hexmag', z3.IntSort(), z3.StringSort())
+
+
+def _hexstr(t):
+    """format(n, 'x') as a term: the (uninterpreted) lower-case hex digits of |n|, after '-' when n is negative - so that
+    the two ways of writing it, format(n, 'x') and ('-' + format(-n, 'x') if n < 0 else format(n, 'x')), are the same term."""
+    return z3.If(t < 0, z3.Concat(z3.StringVal('-'), _hexmag(-t)), _hexmag(t))
 
 
 def hex_of_int(x):
